@@ -1018,11 +1018,21 @@ def make_joblib():
     m.delayed = lambda f: (lambda *a, **k: (f, a, k))
 
     class Parallel:
-        def __init__(self, n_jobs=None, **k):
-            self.n_jobs = n_jobs
+        def __init__(self, n_jobs=None, return_as="list", **k):
+            self.n_jobs, self.return_as = n_jobs, return_as
 
         def __call__(self, it):
-            return [f(*a, **k) for f, a, k in it]
+            res = [f(*a, **k) for f, a, k in it]
+            if self.return_as == "generator_unordered" and self.n_jobs not in (None, 1) and len(res) > 1:
+                # completion order is the scheduler's choice: every order of the results is a path
+                ctx, order, rest = core.cur(), [], list(range(len(res)))
+                while len(rest) > 1 and ctx is not None:
+                    v = core.Int(ctx.fresh_name("joblib_pick"))
+                    ctx.assume(core.s_and(v >= 0, v < len(rest)))
+                    order.append(rest.pop(int(v)))
+                order += rest
+                res = [res[i] for i in order]
+            return res if self.return_as == "list" else iter(res)
     m.Parallel = Parallel
     return m
 
